@@ -673,7 +673,7 @@ func walkImpl(c Case) []int64 {
 var walkCorpus = []string{
 	"class A{[x+y](){} #p=1}", // D16
 	"({[z](){}})",             // D16
-	"class A { a = 1; b = 2 }", // finding walk:copy
+	"class A { a = 1; b = 2 }", // fixed 3931a8d: *Field was the address of a loop-variable copy
 	"x.y = i",                  // DotExpr.Y is a LiteralExpr VALUE
 	"if(a);else b",
 	"#!/usr/bin/env node\n'use strict'; /*! banner */ ;",
